@@ -325,6 +325,19 @@ def make_spec(cfg) -> dict:
         del c["target"]
     ctr["c"] += 1
     b["cameras"].append(c)
+  if cfg.get("cam_vertical") and r.p(cfg["cam_vertical"]):
+    # opt-in (own draws only when enabled): a target-mode camera EXACTLY above or below its target, where cross(z, view axis) vanishes and MuJoCo's
+    # mju_normalize3 falls back to the x axis.  Exact in float32 and float64 by construction: dyadic x,y, identity orientations, unit mass, motion along z only.
+    xy = [r.i(-4, 4) / 8.0, r.i(-4, 4) / 8.0]
+    zt = r.i(1, 6) / 8.0
+    tv = dict(name="btv", parent=-1, pos=[xy[0], xy[1], zt], quat=[1.0, 0.0, 0.0, 0.0], joints=[], geoms=[], sites=[], cameras=[], lights=[])
+    tv["inertial"] = dict(pos=[0.0, 0.0, 0.0], quat=[1.0, 0.0, 0.0, 0.0], mass=1.0, diaginertia=[0.1, 0.1, 0.1])
+    if r.p(0.7):
+      tv["joints"].append(dict(name="jtv", type="slide", axis=[0.0, 0.0, 1.0], pos=[0.0, 0.0, 0.0]))
+    cv = dict(name="bcv", parent=-1, pos=[xy[0], xy[1], zt + r.ch([-1.0, 1.0]) * r.i(2, 5) * 2.0], quat=[1.0, 0.0, 0.0, 0.0], joints=[], geoms=[], sites=[], cameras=[], lights=[])
+    cv["cameras"].append(dict(name="ctv", pos=[0.0, 0.0, 0.0], quat=[1.0, 0.0, 0.0, 0.0], mode=r.ch(["targetbody", "targetbodycom"]), target="btv"))
+    bodies.append(tv)
+    bodies.append(cv)
   for k in range(cfg["lights"]):
     b = bodies[r.i(0, nb - 1)]
     l = dict(name=f"l{ctr['l']}", pos=r.vec(3, -0.3, 0.3), dir=r.unit(), mode=r.ch(modes))
